@@ -9,7 +9,7 @@ use crate::util::{par_map, Kv};
 
 pub fn meta(ctx: &Ctx) -> Meta {
     Meta {
-        rule: format!("single layers: FULL lattice L (kernel 1-3 x stride 1-2(3 for pool) x padding 0-2 x dilation 1-2 x channels 1-2 x filters 1-3 x planes {{1,2,3,4,5,6}}x{{1,2,3,4,5,7}}, rectangular and asymmetric included) for convolution, deconvolution, max-pool with linear activation on pairwise-distinct integer data{}, both input representations (flat vector / CxHxW, must be bit-identical); ring of <= {} deviations x E5 x dyadic data; dense n,m in 1..4 x E5+softmax x bias; a LARGE-VALUE ring (kernel 5,7; stride 3,4; padding 3; dilation 3; 4,8 channels; 8,16 filters; planes 12x13, 28x32) walked with <= 1 (thorough 2) deviations; wide dense layers (33, 64, 65, 100, 257); one 6-layer network; networks: every sequence of <= {} layers from {{dense,conv,deconv,pool,feedback}} over 5 input shapes with <= {} configuration deviations that the reference accepts. Oracle: definitional reference forward, pre- and post-activation of every layer. Non-trivial = case whose reference output has >= 2 distinct non-zero entries",
+        rule: format!("single layers: FULL lattice L (kernel 1-3 x stride 1-2(3 for pool) x padding 0-2 x dilation 1-2 x channels 1-2 x filters 1-3 x planes {{1,2,3,4,5,6}}x{{1,2,3,4,5,7}}, rectangular and asymmetric included) for convolution, deconvolution, max-pool with linear activation on pairwise-distinct integer data{} (the ring also on {{-1,0,1}} data with ties and on generic non-dyadic floats), both input representations (flat vector / CxHxW, must be bit-identical); ring of <= {} deviations x E5 x dyadic data; dense n,m in 1..4 x E5+softmax x bias; a LARGE-VALUE ring (kernel 5,7; stride 3,4; padding 3; dilation 3; 4,8 channels; 8,16 filters; planes 12x13, 28x32) walked with <= 1 (thorough 2) deviations; wide dense layers (33, 64, 65, 100, 257); one 6-layer network; networks: every sequence of <= {} layers from {{dense,conv,deconv,pool,feedback}} over 5 input shapes with <= {} configuration deviations that the reference accepts. Oracle: definitional reference forward, pre- and post-activation of every layer. Non-trivial = case whose reference output has >= 2 distinct non-zero entries",
             if ctx.tier.thorough() { " and dyadic data, and ReLU" } else { "" }, if ctx.tier.thorough() { 3 } else { 2 }, 3, if ctx.tier.thorough() { 2 } else { 1 }),
         bound: "kernel <= 3, stride <= 2 (3 pool), padding <= 2, dilation <= 2, planes <= 6x7, depth <= 3".into(),
         exhaustive: true,
@@ -37,6 +37,7 @@ fn val_name(v: Valuation) -> &'static str {
         Valuation::Dyadic => "dyadic",
         Valuation::Generic => "generic",
         Valuation::Tiny => "tiny",
+        Valuation::Dup => "dup",
     }
 }
 pub fn val_parse(s: &str) -> Valuation {
@@ -44,6 +45,7 @@ pub fn val_parse(s: &str) -> Valuation {
         "ints" => Valuation::Ints,
         "dyadic" => Valuation::Dyadic,
         "tiny" => Valuation::Tiny,
+        "dup" => Valuation::Dup,
         _ => Valuation::Generic,
     }
 }
@@ -147,7 +149,7 @@ pub fn check_net(net: &Net, val: Valuation, flat_in: bool, seed: u64, case: &Kv,
     // exact-arithmetic networks (linear / ReLU on dyadic or integer data) get the tight tolerance; leaky ReLU (slope
     // 0.01 is not dyadic), sigmoid and tanh chains amplify single-precision rounding to ~1e-5 relative
     let smooth = net.name().contains("leaky") || net.name().contains("sigmoid") || net.name().contains("tanh") || net.name().contains("softmax");
-    let tol = if smooth { 1e-4 } else { 2e-6 };
+    let tol = if smooth { 1e-4 } else if val == Valuation::Generic { 2e-5 } else { 2e-6 };
     let mut all_exact = true;
     for i in 0..net.layers.len() {
         if !matches!(net.layers[i], L::Fb { .. }) {
@@ -259,6 +261,19 @@ pub fn cases(ctx: &Ctx) -> Vec<Kv> {
             }
         }
     }
+    // other kinds of data on the ring of <= 2 deviations: ties / duplicates / exact zeros ({-1,0,1}), and generic
+    // non-dyadic floats (products and sums that are not exactly representable)
+    for kind in [Kind::Conv, Kind::Deconv, Kind::Pool] {
+        let doms = lattice_domains(kind);
+        for ix in deviations(&doms, 2) {
+            if lattice_point(kind, &ix, Act::Linear).is_none() {
+                continue;
+            }
+            for val in ["dup", "generic"] {
+                out.push(Kv::new().put("kind", "lattice").put("layer", kind_name(kind)).put("ix", ixs(&ix)).put("act", if ix.iter().sum::<usize>() % 2 == 0 { "linear" } else { "relu" }).put("val", val).put("flat", (ix.iter().sum::<usize>() % 2) as u8));
+            }
+        }
+    }
     // large-value ring: one (thorough: two) dimensions far outside the small lattice
     for kind in [Kind::Conv, Kind::Deconv, Kind::Pool] {
         let doms = xlattice_domains(kind);
@@ -314,6 +329,12 @@ pub fn cases(ctx: &Ctx) -> Vec<Kv> {
         out.push(Kv::new().put("kind", "net").put("net", net.name()).put("val", "dyadic").put("flat", 0));
         if out.len() % 4 == 0 {
             out.push(Kv::new().put("kind", "net").put("net", net.name()).put("val", "tiny").put("flat", 0));
+        }
+        if out.len() % 4 == 1 {
+            out.push(Kv::new().put("kind", "net").put("net", net.name()).put("val", "dup").put("flat", 0));
+        }
+        if out.len() % 4 == 2 {
+            out.push(Kv::new().put("kind", "net").put("net", net.name()).put("val", "generic").put("flat", 0));
         }
         if spatial_first {
             out.push(Kv::new().put("kind", "net").put("net", net.name()).put("val", "dyadic").put("flat", 1));
